@@ -96,6 +96,10 @@ func runC16(c *core.Ctx) {
 				extra = r.Range(1, 150)
 			}
 			fr := mon.NewFaultReader(input, off, kind, sizes, extra)
+			if (off+len(kind))%4 == 0 {
+				fr.Err = mon.ErrInjectedWrappingEOF // a quarter of the faults are failures that wrap io.EOF without being io.EOF
+				c.Inc("faults_wrapping_eof")
+			}
 			fr.SpinLimit = 100000
 			detail := func(tr omni.Transcript) map[string]interface{} {
 				return map[string]interface{}{"format": format, "schema": string(schema), "input": string(input), "fault_offset": off, "fault_kind": kind,
